@@ -3,6 +3,7 @@ import copy
 import json
 import math
 import os
+import random
 
 # the matrices here are small: BLAS / numba worker pools only add overhead and load on a shared machine
 for _v in ("OMP_NUM_THREADS", "OPENBLAS_NUM_THREADS", "MKL_NUM_THREADS", "NUMBA_NUM_THREADS"):
@@ -87,16 +88,95 @@ def clone_gen(g):
     return h
 
 
+ARG_CASTS = ("npint", "smallint", "npfloat", "f32", "zerod", "pyint")
+SEED_KINDS = ("int", "int0", "int>2^32", "int>2^53", "int>2^64", "npint", "seq", "none")
+CALL_FORMS = ("pos", "allkw", "default")
+ENTRIES = ("pkg", "turb")
+
+
+def seed_argument(kind, seed):
+    """the random_seed argument of a seed kind (everything numpy.random.default_rng documents), built from the integer `seed`"""
+    if kind == "int":
+        return int(seed)
+    if kind == "int0":
+        return 0
+    if kind == "int>2^32":
+        return 2 ** 32 + int(seed)
+    if kind == "int>2^53":
+        return 2 ** 53 + 1 + 2 * int(seed)
+    if kind == "int>2^64":
+        return 2 ** 64 + 2 ** 40 * int(seed) + 3
+    if kind == "npint":
+        return numpy.int64(seed)
+    if kind == "seq":
+        return numpy.random.SeedSequence(int(seed))
+    if kind == "none":
+        return None
+    raise ValueError(kind)
+
+
+def cast_arguments(cfg):
+    """(req, px, r0, L0, par) of a configuration handed over as other numeric types (Round 5).  The history clauses hold for every
+    parameter value, so a cast that changes the value (float32) is still the same kind of input; "pyint" rounds the metres to
+    whole numbers >= 1."""
+    par = cfg["nc"] if cfg["variant"] == "vk" else cfg["factor"]
+    req, px, r0, L0 = cfg["req"], cfg["px"], cfg["r0"], cfg["L0"]
+    cast = cfg.get("cast")
+    if cast is None:
+        return req, px, r0, L0, par
+    if cast == "npint":
+        return numpy.int64(req), px, r0, L0, numpy.int32(par)
+    if cast == "smallint":      # the smallest signed type that holds the requested size (n*n does not fit for n >= 12), 16 bits for the depth
+        return (numpy.int16(req) if req > 127 else numpy.int8(req)), px, r0, L0, numpy.int16(par)
+    if cast == "npfloat":
+        return numpy.int32(req), numpy.float64(px), numpy.float64(r0), numpy.float64(L0), par
+    if cast == "f32":
+        return req, numpy.float32(px), numpy.float32(r0), numpy.float32(L0), par
+    if cast == "zerod":
+        return req, numpy.array(px), numpy.array(r0), numpy.array(L0), par
+    if cast == "pyint":
+        return int(req), max(1, int(round(px))), max(1, int(round(r0))), max(2, int(round(L0))), int(par)
+    raise ValueError(cast)
+
+
 def construct(cfg):
-    """the real object of a configuration dict (raises what the constructor raises)"""
+    """the real object of a configuration dict (raises what the constructor raises).  Optional keys (Round 5): "cast" (argument
+    types, see cast_arguments), "seedkind" (what is passed as random_seed instead of an injected counting Generator; the
+    generator returned is then the object's own _R), "call" (positional / all keywords / optional keyword left at its default),
+    "entry" (package-level alias of the class)."""
     from aotools.turbulence import infinitephasescreen as ips
-    g = CountingGen(cfg["seed"])
-    if cfg["variant"] == "vk":
-        ps = ips.PhaseScreenVonKarman(cfg["req"], cfg["px"], cfg["r0"], cfg["L0"], random_seed=g, n_columns=cfg["nc"])
+    import aotools
+    vk = cfg["variant"] == "vk"
+    name = "PhaseScreenVonKarman" if vk else "PhaseScreenKolmogorov"
+    cls = getattr({"pkg": aotools, "turb": aotools.turbulence}.get(cfg.get("entry"), ips), name)
+    req, px, r0, L0, par = cast_arguments(cfg)
+    kind = cfg.get("seedkind")
+    g = CountingGen(cfg["seed"]) if kind is None else None
+    seed = g if kind is None else seed_argument(kind, cfg["seed"])
+    call = cfg.get("call")
+    parname = "n_columns" if vk else "stencil_length_factor"
+    if call == "pos":
+        ps = cls(req, px, r0, L0, seed, par)
+    elif call == "allkw":
+        ps = cls(nx_size=req, pixel_scale=px, r0=r0, L0=L0, random_seed=seed, **{parname: par})
+    elif call == "default":
+        if par != (2 if vk else 4):
+            raise ValueError("call form 'default' needs the default n_columns / stencil_length_factor")
+        ps = cls(req, px, r0, L0, random_seed=seed) if kind != "none" else cls(req, px, r0, L0)
     else:
-        ps = ips.PhaseScreenKolmogorov(cfg["req"], cfg["px"], cfg["r0"], cfg["L0"], random_seed=g,
-                                       stencil_length_factor=cfg["factor"])
+        ps = cls(req, px, r0, L0, random_seed=seed, **{parname: par})
+    if g is None:
+        g = getattr(ps, "_R", None)       # the per-instance Generator the property's state description names
+        if not isinstance(g, numpy.random.Generator):
+            g = None                      # callers report it: the harness cannot follow this object's random stream
     return ps, g
+
+
+def no_stream(chk, cfg, g):
+    if g is None:
+        chk.broke("correspondence", "an object built with random_seed=%s keeps no numpy Generator in _R: the model's state (array, "
+                  "stream position) does not describe it  %s" % (cfg.get("seedkind"), json.dumps(cfg, sort_keys=True)))
+    return g is None
 
 
 def bits_equal(a, b):
@@ -118,6 +198,14 @@ def gen_cfg(rng, maxn, variant=None, req=None, extreme=False):
     if extreme == "huge":
         px = logu(rng, 0.01, 0.1)
         L0 = px * logu(rng, 1e5, 1e7)
+    elif extreme == "coarse":      # Round 5: pixels as large as or larger than the outer scale (L0/pixel 0.3 … 4, sometimes 0.02 … 0.3
+        px = logu(rng, 0.05, 50.)  # where neighbouring pixels are uncorrelated to better than 1e-11)
+        L0 = px * (logu(rng, 0.3, 4.) if rng.random() < 0.8 else logu(rng, 0.02, 0.3))
+    elif extreme == "scaled":      # Round 5: the ordinary sampling ratios at other absolute scales, r0 from 1 mm to 30 m (also > L0)
+        k = 10. ** rng.choice([-4, -3, -2, 2, 3, 4])
+        L0 = logu(rng, max(1.0, 4 * px), min(100.0, RATIO_MAX * px)) * k
+        px = px * k
+        r0 = logu(rng, 1e-3, 30.)
     elif extreme:
         L0 = px * logu(rng, 2e4, 2e5)
     else:
@@ -162,6 +250,8 @@ def oracle_history(chk, cfg, ops, record=True):
     except Exception as ex:   # numpy/scipy LinAlgError, ValueError…: "construction succeeds" is part of the domain
         chk.count("oracle:construct-raises:" + type(ex).__name__)
         return False
+    if no_stream(chk, cfg, g):
+        return True
     vk = variant_key(ps, cfg)
     req, nx, ln = cfg["req"], ps.nx_size, ps.stencil_length
     nfail = len(chk.failures)
@@ -190,7 +280,8 @@ def oracle_history(chk, cfg, ops, record=True):
     for i, op in enumerate(ops):
         before = numpy.array(ps._scrn, copy=True)
         st = copy.deepcopy(g.bit_generator.state)
-        nlog = len(g.log)
+        glog = getattr(g, "log", None)          # only an injected CountingGen logs its calls
+        nlog = len(glog) if glog is not None else 0
         try:
             val = {"a": ps.add_row, "s": lambda: ps.scrn, "r": lambda: repr(ps), "p": lambda: str(ps)}[op]()
         except Exception as ex:
@@ -230,12 +321,12 @@ def oracle_history(chk, cfg, ops, record=True):
                         "stream by %.3g (scale %.3g)" % (nx, float(err.max()), float(scale.max())), i)
             # HOW the innovation is drawn (the model: one block of nx normals per add_row) is a correspondence matter; the
             # property-level consequence — the row is A·Z + B·b with b from the injected stream — is the "row" check above
-            if (g.log[nlog:] not in ([("normal", nx)], [("standard_normal", nx)]) or g.bit_generator.state != ref.bit_generator.state) \
-                    and not stream_broke:         # normal(0, 1, n) and standard_normal(n) take the same values from the same stream
+            if ((glog is not None and glog[nlog:] not in ([("normal", nx)], [("standard_normal", nx)]))
+                    or g.bit_generator.state != ref.bit_generator.state) and not stream_broke:         # normal(0, 1, n) and standard_normal(n) take the same values from the same stream
                 stream_broke.append(1)
                 chk.broke("correspondence", "add_row drew %r from the injected generator / left it at another position than one "
                           "block of %d normals further (model: pos_inv, add_uses_fresh_block)  %s op %d"
-                          % (g.log[nlog:][:4], nx, json.dumps(cfg, sort_keys=True), i))
+                          % ((glog or [])[nlog:][:4], nx, json.dumps(cfg, sort_keys=True), i))
                 ref.bit_generator.state = copy.deepcopy(g.bit_generator.state)
             prev = outc
         else:
@@ -247,8 +338,8 @@ def oracle_history(chk, cfg, ops, record=True):
                     bad("read", "repr() does not print the current exposed screen", i)
             if not bits_equal(numpy.asarray(ps._scrn), before):
                 bad("read", "reading (%s) altered the working array" % {"s": ".scrn", "r": "repr", "p": "str"}[op], i)
-            if g.bit_generator.state != st or len(g.log) != nlog:
-                bad("read-rng", "reading (%s) advanced the random stream (%r)" % (op, g.log[nlog:]), i)
+            if g.bit_generator.state != st or (glog is not None and len(glog) != nlog):
+                bad("read-rng", "reading (%s) advanced the random stream (%r)" % (op, (glog or [])[nlog:]), i)
             if not bits_equal(numpy.array(ps.scrn), prev):
                 bad("read", "exposed screen changed by a read", i)
     # "nothing else changes": the documented matrices / parameters of the object are observable, so a change is a failing
@@ -402,7 +493,10 @@ def oracle_stability(chk, cfg, quantitative=True, steps=0):
 
 
 def oracle_long(chk, cfg, nrows):
-    """finiteness and boundedness along a long real history"""
+    """finiteness and boundedness along a long real history; since Round 5 also, after EVERY step: the working array moved down by
+    exactly one row (bitwise) and the new row is A·Z + B·b of the array before the step and the next block of the stream — an
+    event that happens only every so many rows (a counter wrapping, a periodic re-centring, a buffer longer than the 3·length
+    histories reach) has nowhere to hide"""
     try:
         ps, g = construct(cfg)
     except Exception as ex:
@@ -413,7 +507,11 @@ def oracle_long(chk, cfg, nrows):
     chk.count("oracle:long:%s" % vk)
     chk.case(("oracle-long", json.dumps(cfg, sort_keys=True), nrows))
     s0 = float(vk_covariance(0.0, cfg["r0"], cfg["L0"]))
+    ref = clone_gen(g)
+    nx = ps.nx_size
+    row_fails = 0
     for t in range(nrows):
+        before = numpy.array(ps._scrn, copy=True)
         try:
             out = ps.add_row()
         except Exception as ex:
@@ -421,6 +519,31 @@ def oracle_long(chk, cfg, nrows):
                                                                                      json.dumps(cfg, sort_keys=True)),
                      {"cfg": cfg, "ops": "a" * (t + 1), "kind": "raises"})
             return
+        now = numpy.asarray(ps._scrn)
+        if now.shape != before.shape or not bits_equal(now[1:], before[:-1]):
+            chk.fail("shift-internal:%s" % vk, "add_row number %d of a long history did not move the working array down by exactly one "
+                     "row (shape %r -> %r)  %s" % (t + 1, before.shape, now.shape, json.dumps(cfg, sort_keys=True)),
+                     {"cfg": cfg, "ops": "a" * (t + 1), "kind": "shift-internal"})
+            return
+        if not bits_equal(numpy.asarray(out), now[:cfg["req"], :cfg["req"]]):
+            chk.fail("shift:%s" % vk, "add_row number %d of a long history returned something else than the top-left N x N block of "
+                     "the working array  %s" % (t + 1, json.dumps(cfg, sort_keys=True)),
+                     {"cfg": cfg, "ops": "a" * (t + 1), "kind": "shift"})
+            return
+        noise = ref.normal(0, 1, size=nx)
+        if g.bit_generator.state == ref.bit_generator.state:      # stream bookkeeping itself is a correspondence matter (oracle_history)
+            row, scale = expected_row(ps, cfg, before, noise)
+            err = numpy.abs(now[0] - row)
+            if not (err <= ROW_RTOL * scale + 1e-300).all():
+                chk.fail("row:%s" % vk, "row number %d of a long history differs from A·Z + B·b of the array before it and the next %d "
+                         "normals of the stream by %.3g (scale %.3g)  %s" % (t + 1, nx, float(err.max()), float(scale.max()),
+                                                                             json.dumps(cfg, sort_keys=True)),
+                         {"cfg": cfg, "ops": "a" * (t + 1), "kind": "row"})
+                row_fails += 1
+                if row_fails >= 2:
+                    return
+        else:
+            ref.bit_generator.state = copy.deepcopy(g.bit_generator.state)
         if t % 64 == 63 or t == nrows - 1:
             if out.shape != (cfg["req"], cfg["req"]):
                 chk.fail("shape:%s" % vk, "shape %r after %d add_row  %s" % (out.shape, t + 1, json.dumps(cfg, sort_keys=True)),
@@ -439,6 +562,142 @@ def oracle_long(chk, cfg, nrows):
                      {"cfg": cfg, "ops": "a" * nrows, "kind": "bounded"})
 
 
+# --------------------------------------------------------------------------------------------- oracle: live siblings (Round 5)
+def oracle_interleaved(chk, cfgs, n_ops, late=(), schedule=None, rng=None):
+    """several screens alive at the same time in one process, their add_row / read operations interleaved at random; the
+    configurations in `late` are constructed in the middle of the schedule.  Each operation is checked on its own object (shape,
+    exact one-row shift of the exposed and of the working array, row = A·Z + B·b of ITS array and ITS stream, reads pure), and
+    every operation — and every construction — must leave the working array, the stream position and the matrices of all the
+    OTHER objects bitwise as they were: 'nothing else changes' includes the sibling screens (layers of one atmosphere)."""
+    rng = rng or chk.rng
+    live = []           # dicts: cfg, ps, g, ref, prev, vk, A, B
+    all_cfgs, n_initial = list(cfgs) + list(late), len(cfgs)
+
+    def enter(cfg):
+        try:
+            ps, g = construct(cfg)
+        except Exception as ex:
+            chk.count("oracle:construct-raises:" + type(ex).__name__)
+            return
+        if no_stream(chk, cfg, g):
+            return
+        live.append({"cfg": cfg, "ps": ps, "g": g, "ref": clone_gen(g), "prev": numpy.array(ps.scrn, copy=True), "vk": variant_key(ps, cfg),
+                     "A": numpy.array(ps.A_mat, copy=True), "B": numpy.array(ps.B_mat, copy=True), "nadd": 0})
+
+    def snapshot(skip):
+        return [(o, numpy.array(o["ps"]._scrn, copy=True), copy.deepcopy(o["g"].bit_generator.state)) for o in live if o is not skip]
+
+    def others_untouched(snap, what, sched):
+        for o, scr, st in snap:
+            same = (bits_equal(numpy.asarray(o["ps"]._scrn), scr) and o["g"].bit_generator.state == st
+                    and bits_equal(numpy.asarray(o["ps"].A_mat), o["A"]) and bits_equal(numpy.asarray(o["ps"].B_mat), o["B"]))
+            if not same:
+                chk.fail("sibling:%s" % o["vk"], "%s changed the %s of ANOTHER live screen %s  [schedule so far: %s]"
+                         % (what, "working array" if not bits_equal(numpy.asarray(o["ps"]._scrn), scr) else
+                            ("random stream" if o["g"].bit_generator.state != st else "A_mat / B_mat"),
+                            json.dumps(o["cfg"], sort_keys=True), sched),
+                         {"kind": "interleaved", "cfgs": all_cfgs, "n_initial": n_initial, "schedule": sched.strip()})
+                return False
+        return True
+
+    for cfg in cfgs:
+        snap = snapshot(None)
+        enter(cfg)
+        if not others_untouched(snap, "constructing %s" % json.dumps(cfg, sort_keys=True), ""):
+            return
+    if len(live) < 2:
+        return
+    chk.oracle_cases += 1
+    chk.count("oracle:interleaved")
+    chk.count("oracle:interleaved:objects", len(live) + len(late))
+    chk.case(("oracle-interleaved", json.dumps([o["cfg"] for o in live], sort_keys=True), n_ops))
+    late = list(late)
+    if schedule is None:        # "+" = construct the next late configuration; "<j><op>" = operation op on live object j
+        tokens, n_live = [], len(live)
+        for i in range(n_ops):
+            if i >= n_ops // 2 and n_live - len(live) < len(late):
+                tokens.append("+")
+                n_live += 1
+            tokens.append("%d%s" % (rng.randrange(n_live), rng.choice("aaaasrp")))
+    else:
+        tokens = schedule.split()
+    sched = ""
+    for tok in tokens:
+        sched += " " + tok
+        if tok == "+":
+            if not late:
+                return
+            cfg = late.pop(0)
+            snap = snapshot(None)
+            n_before = len(live)
+            enter(cfg)
+            if len(live) == n_before:          # a late construction that raises ends the schedule (indices would shift)
+                return
+            if not others_untouched(snap, "constructing %s" % json.dumps(cfg, sort_keys=True), sched):
+                return
+            continue
+        j, op = int(tok[:-1]), tok[-1]
+        if not 0 <= j < len(live):
+            return
+        o = live[j]
+        ps, g, cfg, vk = o["ps"], o["g"], o["cfg"], o["vk"]
+        req, nx, ln = cfg["req"], ps.nx_size, ps.stencil_length
+        snap = snapshot(o)
+        before = numpy.array(ps._scrn, copy=True)
+        st = copy.deepcopy(g.bit_generator.state)
+        rep = {"kind": "interleaved", "cfgs": all_cfgs, "n_initial": n_initial, "schedule": sched.strip()}
+
+        def bad(kind, what):
+            chk.fail("%s:%s" % (kind, vk), "%s  [object %d = %s of %d live screens, schedule: %s]"
+                     % (what, j, json.dumps(cfg, sort_keys=True), len(live), sched), rep)
+        try:
+            val = {"a": ps.add_row, "s": lambda: ps.scrn, "r": lambda: repr(ps), "p": lambda: str(ps)}[op]()
+        except Exception as ex:
+            bad("raises", "%s raised %s: %s" % (op, type(ex).__name__, str(ex)[:120]))
+            return
+        if op == "a":
+            o["nadd"] += 1
+            noise = o["ref"].normal(0, 1, size=nx)
+            outc = numpy.array(val, copy=True)
+            now = numpy.asarray(ps._scrn)
+            if outc.shape != (req, req):
+                bad("shape", "add_row() returned shape %r, requested (%d,%d)" % (outc.shape, req, req))
+                return
+            if not bits_equal(outc[1:], o["prev"][:-1]):
+                bad("shift", "exposed screen after add_row is not the previous one of THIS object moved down by one row")
+                return
+            if now.shape != (ln, nx) or not bits_equal(now[1:], before[:-1]) or not bits_equal(outc, now[:req, :req]):
+                bad("shift-internal", "working array of THIS object did not move down by exactly one row")
+                return
+            if not numpy.isfinite(outc).all():
+                bad("finite", "non-finite entries after %d add_row" % o["nadd"])
+                return
+            if g.bit_generator.state == o["ref"].bit_generator.state:
+                row, scale = expected_row(ps, cfg, before, noise)
+                err = numpy.abs(now[0] - row)
+                if not (err <= ROW_RTOL * scale + 1e-300).all():
+                    bad("row", "generated row differs from A·Z + B·b of this object's previous array and the next %d normals of its own "
+                        "stream by %.3g (scale %.3g)" % (nx, float(err.max()), float(scale.max())))
+                    return
+            else:
+                chk.broke("correspondence", "interleaved add_row left the object's generator at another position than one block of %d "
+                          "normals further  %s  schedule %s" % (nx, json.dumps(cfg, sort_keys=True), sched))
+                return
+            o["prev"] = outc
+        else:
+            if op == "s" and not bits_equal(numpy.array(val), o["prev"]):
+                bad("read", ".scrn does not show what the last add_row of THIS object left")
+                return
+            if not bits_equal(numpy.asarray(ps._scrn), before) or not bits_equal(numpy.array(ps.scrn), o["prev"]):
+                bad("read", "reading (%s) altered the working array" % op)
+                return
+            if g.bit_generator.state != st:
+                bad("read-rng", "reading (%s) advanced the random stream" % op)
+                return
+        if not others_untouched(snap, "operation '%s' on screen %d (%s)" % (op, j, json.dumps(cfg, sort_keys=True)), sched):
+            return
+
+
 # --------------------------------------------------------------------------------------------- oracle: further histories
 def oracle_watched_twin(chk, cfg, n_add):
     """two objects of one configuration and seed: on one, every add_row is followed by repr / str / print / .scrn; the twin only
@@ -455,7 +714,7 @@ def oracle_watched_twin(chk, cfg, n_add):
     chk.oracle_cases += 1
     chk.count("oracle:watched-twin:%s" % vk)
     chk.case(("oracle-twin", json.dumps(cfg, sort_keys=True), n_add))
-    reads = ("r", "p", "P", "s")
+    reads = ("r", "p", "P", "s", "f")
     done = ""
     for t in range(n_add):
         a = numpy.array(ps.add_row(), copy=True)
@@ -467,13 +726,15 @@ def oracle_watched_twin(chk, cfg, n_add):
                 str(ps)
             elif rd == "P":
                 print(ps, file=io.StringIO())
+            elif rd == "f":        # Round 5: the other routes to the printed form, and reading through a copy / reduction
+                format(ps), "%s %r" % (ps, ps), "{0} {0!r}".format(ps), numpy.array(ps.scrn).sum(), ps.scrn.copy(), ps.scrn.tolist()
             else:
                 ps.scrn
-            done += "r" if rd in "rpP" else "s"
+            done += "r" if rd in "rpPf" else "s"
             now = numpy.array(ps.scrn, copy=True)
             if not bits_equal(now, a):
                 chk.fail("read:%s" % vk, "%s after %d add_row changed the exposed screen (max |Δ| = %.3g)  %s"
-                         % ({"r": "repr()", "p": "str()", "P": "print()", "s": ".scrn"}[rd], t + 1,
+                         % ({"r": "repr()", "p": "str()", "P": "print()", "s": ".scrn", "f": "format() / %-formatting / .scrn.copy()"}[rd], t + 1,
                             float(numpy.max(numpy.abs(now - a))) if now.shape == a.shape else float("nan"),
                             json.dumps(cfg, sort_keys=True)), {"cfg": cfg, "ops": done, "kind": "read"})
                 return
@@ -769,8 +1030,92 @@ def correspondence(chk, n_ids, n_hist, maxn, all_sizes):
                 chk.count("corr:hist:loose-bound")
 
 
+# --------------------------------------------------------------------------------------------- Round 5: generator audit
+BIG_SIZES = [("vk", 40, 2), ("fried", 34, 1), ("fried", 48, 2), ("vk", 64, 2), ("fried", 64, 1), ("fried", 65, 2), ("fried", 66, 1),
+             ("vk", 100, 1), ("fried", 100, 1), ("fried", 129, 1), ("fried", 130, 1), ("vk", 129, 2), ("vk", 200, 2), ("fried", 257, 1)]
+
+
+def with_par(cfg, par):
+    cfg = dict(cfg)
+    cfg.pop("nc", None), cfg.pop("factor", None)
+    cfg["nc" if cfg["variant"] == "vk" else "factor"] = par
+    return cfg
+
+
+def round5_histories(chk, rng, quick, maxn):
+    """input classes and histories the generators of rounds 1-4 never produced (all inside the stated domain: 'all sequences of
+    add_row / read operations of any length, for both screen variants and all sizes and parameters')"""
+    # (a) the same numbers as other numeric types; random_seed as everything default_rng accepts (0, > 2^32, > 2^53, > 2^64, numpy
+    # integer, SeedSequence, None) instead of an injected Generator; positional / all-keyword calls and the optional argument
+    # left at its default; the package-level names aotools.PhaseScreen*, aotools.turbulence.PhaseScreen*
+    dims = [("seedkind", SEED_KINDS), ("cast", ARG_CASTS), ("call", CALL_FORMS), ("entry", ENTRIES)]
+    singles = [(name, v) for name, pool in dims for v in pool]         # every class on its own once per run (19 cases) …
+    for k in range(32 if quick else 400):
+        cfg = gen_cfg(rng, maxn if k % 2 else 12)
+        if k % 32 < len(singles):
+            if singles[k % 32][1] == "smallint":     # sizes whose square does not fit the 8-bit type
+                cfg = gen_cfg(rng, maxn, req=rng.randint(12, maxn))
+            cfg[singles[k % 32][0]] = singles[k % 32][1]
+        else:                                                          # … then random combinations
+            for name, pool in dims:
+                if rng.random() < 0.6:
+                    cfg[name] = rng.choice(pool)
+        if cfg.get("call") == "default":
+            cfg = with_par(cfg, 2 if cfg["variant"] == "vk" else 4)
+        if oracle_history(chk, cfg, gen_ops(rng, rng.randint(5, 40 if quick else 200), p_add=0.7)):
+            for name in ("cast", "seedkind", "call", "entry"):
+                if name in cfg:
+                    chk.count("oracle:hist:%s=%s" % (name, cfg[name]))
+    # (b) requested sizes beyond 33 (around 2^n and 2^n+1 up to 257; internal Fried sizes 65, 129, 257): short histories, and as
+    # many rows as the working array is long (+5) where that is at most 140
+    sizes = list(BIG_SIZES)
+    rng.shuffle(sizes)
+    for variant, n, par in sizes[:5 if quick else len(sizes)]:
+        cfg = with_par(gen_cfg(rng, maxn, variant=variant, req=n), par)
+        ln = n if variant == "vk" else par * (2 ** max(n - 2, 0).bit_length() + 1)
+        nadd = ln + 5 if ln <= 140 else 12
+        if oracle_history(chk, cfg, ops_many_adds(rng, nadd, p_read=0.05)):
+            chk.count("oracle:hist:size>33")
+    if not quick:
+        for _ in range(20):
+            variant = rng.choice(VARIANTS)
+            cfg = with_par(gen_cfg(rng, maxn, variant=variant, req=rng.randint(34, 300)), rng.choice([1, 2]))
+            if oracle_history(chk, cfg, ops_many_adds(rng, 12, p_read=0.05)):
+                chk.count("oracle:hist:size>33")
+    # (c) the configuration of the repository's own test and documentation, PhaseScreenKolmogorov(128, 4/64, 0.2, 50) with the
+    # default stencil_length_factor: more rows than its 516-row working array is long, every step checked
+    big = {"variant": "fried", "req": 128, "px": 4. / 64, "r0": 0.2, "L0": 50., "factor": 4, "seed": rng.randint(0, 2 ** 31), "call": "default"}
+    if oracle_history(chk, big, "a" * (516 + 8 if quick else 2 * 516 + 3)):
+        chk.count("oracle:hist:default-128-screen-past-its-length")
+    bigvk = {"variant": "vk", "req": 128, "px": 4. / 64, "r0": 0.2, "L0": 50., "nc": 2, "seed": rng.randint(0, 2 ** 31), "call": "default"}
+    if oracle_history(chk, bigvk, "a" * (128 + 8 if quick else 2 * 128 + 3)):
+        chk.count("oracle:hist:default-128-screen-past-its-length")
+    # (d) magnitudes: pixels of the order of / larger than the outer scale; other absolute scales; r0 from 1 mm to 30 m
+    for k in range(12 if quick else 200):
+        cfg = gen_cfg(rng, 17, extreme="coarse" if k % 2 else "scaled")
+        if oracle_history(chk, cfg, gen_ops(rng, 30 if quick else 120, p_add=0.8)):
+            chk.count("oracle:hist:%s" % ("coarse" if k % 2 else "scaled"))
+    # (e) several live screens, operations interleaved: same geometry with another seed / other r0, pixel scale, L0; two screens
+    # built from the SAME integer seed; the other variant at the same size; more screens constructed half-way through
+    for _ in range(4 if quick else 60):
+        base = gen_cfg(rng, 12)
+        par = base.get("nc", base.get("factor"))
+        s_int = rng.randint(0, 2 ** 31)
+        sib_seed = dict(base, seed=rng.randint(0, 2 ** 31))
+        sib_par = with_par(gen_cfg(rng, 12, variant=base["variant"], req=base["req"]), par)
+        int_a = dict(sib_par, seed=s_int, seedkind="int")
+        int_b = dict(int_a)
+        other = gen_cfg(rng, 12, variant="fried" if base["variant"] == "vk" else "vk", req=base["req"])
+        late = [dict(int_a), gen_cfg(rng, 12), dict(base, seed=rng.randint(0, 2 ** 31), seedkind="none")]
+        oracle_interleaved(chk, [base, sib_seed, sib_par, int_a, int_b, other], 60 if quick else 240, late=late, rng=rng)
+
+
 # --------------------------------------------------------------------------------------------- entry points
-KNOWN_UNSTABLE = {"variant": "vk", "req": 16, "px": 0.1, "r0": 0.15, "L0": 3000.0, "nc": 1, "seed": 1}
+# witness of the OPEN finding stability:vk:L0/pixel>2e4 on the repaired tree (Round 5): PhaseScreenVonKarman(32, 0.04, 0.3, 4e6) with the
+# default n_columns — spectral radius 1 + 3.4e-3, max|screen| = 7e34 after 20000 add_row (std of the field 2.5e5)
+KNOWN_UNSTABLE = {"variant": "vk", "req": 32, "px": 0.04, "r0": 0.3, "L0": 4e6, "nc": 2, "seed": 1}
+# the witness recorded on the pinned tree (float32 covariance; spectral radius 25.4 there), stable since fix 4518b2c: still replayed
+PINNED_UNSTABLE = {"variant": "vk", "req": 16, "px": 0.1, "r0": 0.15, "L0": 3000.0, "nc": 1, "seed": 1}
 
 
 def run(chk):
@@ -866,8 +1211,16 @@ def run(chk):
     # stability of the von Kármán recursion
     for _ in range(120 if quick else 2500):
         oracle_stability(chk, gen_cfg(rng, maxn, variant="vk"))
-    # recorded finding replayed every run + the extreme outer-scale stream it belongs to
-    oracle_stability(chk, dict(KNOWN_UNSTABLE), quantitative=False, steps=3000)
+    # recorded finding replayed every run + the extreme outer-scale stream it belongs to.  The finding is OPEN (Round 5): its witness
+    # must still be unstable — then the failure below carries the finding's key and the run prints KNOWN-FINDING; if it is not, the
+    # record in findings/C05.json no longer describes the code and that is reported (not silently passed)
+    nfail = len(chk.failures)
+    oracle_stability(chk, dict(KNOWN_UNSTABLE), quantitative=False, steps=20000)
+    if not any(f["key"] == "stability:vk:L0/pixel>2e4" for f in chk.failures[nfail:]):
+        chk.broke("finding", "the witness of the open finding stability:vk:L0/pixel>2e4, PhaseScreenVonKarman(32, 0.04, 0.3, 4e6) with the "
+                  "default n_columns, is no longer unstable (spectral radius < 1 with a contraction witness): findings/C05.json, the model's "
+                  "NOT-PROVED note `contraction_holds` and this replay have to be brought up to date")
+    oracle_stability(chk, dict(PINNED_UNSTABLE), quantitative=False, steps=3000)
     for _ in range(16 if quick else 300):
         cfg = gen_cfg(rng, 16, variant="vk", extreme=True)
         oracle_stability(chk, cfg, quantitative=False)
@@ -877,6 +1230,33 @@ def run(chk):
     if not quick:
         oracle_long(chk, gen_cfg(rng, 9, variant="vk"), 400000)
         oracle_long(chk, gen_cfg(rng, 9, variant="fried"), 400000)
+    # Round 5 (generator audit): input classes and histories not produced above.  They draw from a generator of their own (a
+    # function of VERIF_SEED only), so the cases of the earlier rounds are the same as before for every seed
+    r5 = random.Random(chk.seed * 1000003 + 50505)
+    round5_histories(chk, r5, quick, maxn)
+    # the stability clause for pixels of the order of / larger than the outer scale, for other absolute scales and r0 from 1 mm to
+    # 30 m, for stencils deeper than 4 rows up to the whole screen and beyond, and for screens wider than 33 pixels (RES_TOL / DEV_TOL
+    # unchanged; observed on these classes over 12 seeds x 33 configurations: residual <= 3.9e-11, deviation <= 7.7e-7: >= 128x margin)
+    for _ in range(12 if quick else 300):
+        oracle_stability(chk, gen_cfg(r5, maxn, variant="vk", extreme="coarse"))
+        oracle_stability(chk, gen_cfg(r5, maxn, variant="vk", extreme="scaled"))
+    for _ in range(6 if quick else 100):
+        cfg = gen_cfg(r5, 12, variant="vk")
+        cfg["nc"] = r5.choice([5, 6, 8, cfg["req"], cfg["req"] + 1])
+        oracle_stability(chk, cfg)
+    # outer scales of 1e5 … 1e7 pixels (Round 5): here the unchanged library FAILS the stability clause — the spectral radius is
+    # 1 ± eps·cond(Σzz) and its sign a coin toss for every n_columns (open finding stability:vk:L0/pixel>2e4: every failure of this
+    # stream carries that key and is matched by it; the fraction found unstable is recorded under notes)
+    n_huge = n_huge_unstable = 0
+    for _ in range(12 if quick else 200):
+        nfail = len(chk.failures)
+        if oracle_stability(chk, gen_cfg(r5, 20, variant="vk", extreme="huge"), quantitative=False) is not None:
+            n_huge += 1
+            n_huge_unstable += len(chk.failures) > nfail
+    chk.notes.append("outer scales of 1e5…1e7 pixels: %d of %d constructed von Kármán configurations have an unstable row recursion "
+                     "(open finding stability:vk:L0/pixel>2e4)" % (n_huge_unstable, n_huge))
+    for n, nc in [(64, 2)] if quick else [(64, 2), (65, 3), (100, 2), (128, 1), (48, 4)]:
+        oracle_stability(chk, dict(gen_cfg(r5, maxn, variant="vk", req=n), nc=nc))
     exposed = []
     for i, cfg in enumerate(EXPOSED_CFGS + ([] if quick else [gen_cfg(rng, 16, variant="vk") for _ in range(6)])):
         try:
@@ -912,7 +1292,7 @@ def replay(rec):
     """re-run the recorded failing input on the real code"""
     f = rec.get("failure") or {}
     rp = f.get("replay") or {}
-    if "cfg" not in rp:
+    if "cfg" not in rp and rp.get("kind") != "interleaved":
         print("nothing to replay on the real code (no failing input was found): %s" % json.dumps(rec.get("broken"))[:2000])
         return 1
     chk = common.Check("C05", "quick", int(rec.get("seed", 0)))
@@ -921,7 +1301,9 @@ def replay(rec):
         m = exposed_screen_measurement(rp["cfg"])
         print("  " + json.dumps(m)[:1500])
         return 1 if m["max|P_full - S|/S(0)"] > 1e-6 else 0
-    if rp.get("kind") in ("stability",):
+    if rp.get("kind") == "interleaved":
+        oracle_interleaved(chk, rp["cfgs"][:rp["n_initial"]], 0, late=rp["cfgs"][rp["n_initial"]:], schedule=rp["schedule"])
+    elif rp.get("kind") in ("stability",):
         oracle_stability(chk, rp["cfg"], quantitative=rp["cfg"]["L0"] / rp["cfg"]["px"] <= RATIO_MAX, steps=3000)
     elif rp.get("kind") in ("finite", "bounded") and len(rp.get("ops", "")) > 300:
         oracle_long(chk, rp["cfg"], len(rp["ops"]))
